@@ -31,12 +31,18 @@ CHECKS = {
  "C01": dict(cat="other", engine="mirsym", tech="bounded symbolic execution of rustc MIR (stage closures composed by role into rehash) with z3 validity queries; Kani on the streaming hash; CLI replay",
              text="Kernel-level: z3 decides over all 64-bit file lengths, prefix sizes and disk kinds that the stage closures hash every byte of every file of an admitted group in the stage producing the final key, that the key contains the length, that hard links of one inode get the same key in every stage (hash closure of each stage composed into rehash's task closure, id-groups of 2 paths), and that the transform output is hashed without a cap. The end-to-end statement follows by the composition argument in DESIGN.md under collision freedom.",
              note="Trusted: MIR front end + summaries, z3, collision freedom of the hash functions; thread-pool plumbing, device detection, child processes and the walk are outside the claim.", ref="DESIGN.md §3 C01"),
+ "C02": dict(cat="other", engine="mirsym", tech="bounded symbolic execution of rustc MIR (list model of partition and dedupe_script) with z3 validity queries + Kani/CBMC on FsCommand::execute; native replays",
+             text="Kernel-level: z3 decides for groups of 2-3 files in every sub-group distribution that max(1, n) sub-groups are kept out of the drop list, nothing is lost or duplicated and protected sub-groups are never dropped; dedupe_script is executed symbolically for all five operations; Kani shows that executing a command never touches the retained file, an unrelated file or an existing move target under arbitrary call failures. Round trip of paths through the report is C10, staleness C04.",
+             note="Trusted: MIR front end + list summaries, z3, Kani translation + model FS stubs; FileSubGroup::group by contract; whole-tree inventory and real file systems outside.", ref="DESIGN.md §3 C02"),
  "C03": dict(cat="other", engine="mirsym", tech="bounded symbolic execution of rustc MIR with z3 validity queries (filter semantics, rehash wiring, task closure)",
              text="Kernel-level: z3 decides for all 64-bit counts that the replication filter is the documented one and monotone (a candidate group is never pruned when a refinement could qualify); the rehash tail and task closure are executed symbolically (id-groups of 2 paths) to show that a stage drops a file only when its hash failed and passes skipped groups through.",
              note="Trusted: MIR front end + summaries, z3; sub-group counting (IndexMap), plumbing and the walk are outside the claim.", ref="DESIGN.md §3 C03"),
  "C06": dict(cat="other", engine="mirsym", tech="bounded symbolic execution of rustc MIR with z3 validity queries against the documented filter semantics; CLI replay",
              text="z3 decides for all option values and all 64-bit counts that matches/matches_strictly/missing_count/redundant_count and GroupConfig::group_filter implement the documented replication filter and defaults, and that isolate roots are canonicalised like scanned paths. Hard-link / symlink sub-grouping (IndexMap) is not encodable and outside the claim.",
              note="Trusted: MIR front end + summaries, z3. Partial claim: the sub-group count is a free symbol.", ref="DESIGN.md §3 C06"),
+ "C08": dict(cat="other", engine="mirsym", tech="bounded symbolic execution of rustc MIR (list model of partition, sort_by_priority table, header merge) with z3 validity queries; native partition/sort replays",
+             text="z3 decides on the symbolic execution of dedupe::partition (2-3 files, every sub-group distribution, pattern matches as free predicates) that exactly the unprotected sub-groups ranked last are dropped so that n = max(1, rf_over or 1) survive and sub-groups stay whole; each Priority variant's key/direction, the last-to-first application with a stable sort, and run_dedupe's inheritance of rf_over / match_links / size-check / isolate roots are checked on their MIR. Hard-link sub-grouping itself is outside (IndexMap).",
+             note="Trusted: MIR front end + list summaries, z3, stability of std's sort_by_key; glob matching is C16.", ref="DESIGN.md §3 C08"),
  "C09": dict(cat="other", engine="mirsym", tech="bounded symbolic execution of rustc MIR (own engine) with z3 validity queries against a reference decision table; CLI replay",
              text="Every path of the walk's decision functions and of the closures carrying the nesting level is enumerated symbolically from the MIR of the working tree (environment calls are free symbols); z3 decides for all option values and all 64-bit levels/depths/sizes that the effects equal the documented decision table. Bounded symbolic execution, not a proof: loops over directory entries are cut after one iteration (each entry is handled by the same closure).",
              note="Trusted: my MIR front end and summaries (lib/mirsym.py, lib/summaries.py), rustc's MIR dump, z3; the `ignore` crate, glob matching (C16) and real directory iteration are outside the claim.", ref="DESIGN.md §3 C09"),
